@@ -104,10 +104,26 @@ def _guard(pure, real):
     return f
 
 
-if api.MODE != "real":
+def quiet_symbolic_repr():
+    """twisted formats the offending name into its InsecurePath / InvalidPath messages
+    (f"{path!r} ..."); repr() of a symbolic str realises it, i.e. one path per concrete name.  The
+    messages never matter here: under CrossHair repr() of a *symbolic* str is a constant."""
+    try:
+        from crosshair.libimpl.builtinslib import AnySymbolicStr
+    except ImportError:
+        return
+    AnySymbolicStr.__repr__ = lambda self: "'<symbolic str>'"
+
+
+def rebind_posixpath():
     _fp.normpath = _guard(_normpath, os.path.normpath)
     _fp.abspath = _guard(_abspath, os.path.abspath)
     _fp.joinpath = _guard(_join, os.path.join)
+
+
+if api.MODE != "real":
+    rebind_posixpath()
+    quiet_symbolic_repr()
 
 
 # ---- oracle --------------------------------------------------------------------------------------
